@@ -85,7 +85,9 @@ def gen_plan(rng, tier, run):
                                                                  (pelgen.section_offsets(src["recipe"]) + [("", 0, 72)])[2][2] - 1)}})
     plan = {"files": files, "extra": extra, "all_src": all_src, "nested": nested, "damaged": damaged,
             # the PEL directory's own name (glob metacharacters, blanks, an id) and the terminal's encoding
-            "dname": rng.choice(["D"] * 6 + ["pels[node0]", "run-1[a-z]", "logs*", "what?", "a b", "%08X" % pelgen.gen_id(rng)]),
+            "dname": rng.choice(["D"] * 6 + ["pels[node0]", "run-1[a-z]", "logs*", "what?", "a b", "%08X" % pelgen.gen_id(rng),
+                                              # (a case directory named after one of the logs it holds)
+                                              rng.choice(["case_%08X", "%08X"]) % rng.choice(files)["recipe"]["eid"]]),
             "stdout_encoding": rng.choice(["utf-8", "utf-8", "utf-8", "ascii", "latin-1"]),
             # environment: on the BMC (built-in default directory, no -p) or on a workstation
             "bmc": rng.random() < 0.2,
